@@ -73,7 +73,10 @@ class Walker:
                     w[o[0]] = (a[0] - b[0], a[1] + b[1])
                 elif op == ca.OP_MUL:
                     b = w[i[1]]
-                    w[o[0]] = (a[0] * b[0], a[1] * b[1])
+                    r = a[0] * b[0]
+                    if isinstance(r, Fraction) and r.numerator.bit_length() > 400000:
+                        raise OverflowError("exact evaluation exceeds 400k bits (deep propagation chain)")
+                    w[o[0]] = (r, a[1] * b[1])
                 elif op == ca.OP_DIV:
                     b = w[i[1]]
                     if b[0] == 0:
